@@ -344,6 +344,39 @@ fn op_point<N: Fld>(p: &OpPt) -> Outcome {
     let neg: Vec<C> = a.iter().map(|c| -c).collect();
     chk("-P", "polynomial::Neg", g(|| -pa()), &neg, 0.0, &mut o);
     chk("-&P", "polynomial::Neg", g(|| -&pa()), &neg, 0.0, &mut o);
+    // an assigning form changes the coefficients of the polynomial it is applied to, not its configuration: the object's own
+    // zero tolerance (here 2^-20, the right operand carries the default) must still be in force afterwards - every later
+    // clause of the property is judged against it
+    {
+        let own = 2f64.powi(-20);
+        let mut n_assign = 0u64;
+        let mut keep = |form: &str, f: &dyn Fn(&mut Polynomial<N>), o: &mut Outcome| {
+            n_assign += 1;
+            let r = g(|| {
+                let mut x = pa();
+                x.set_tolerance(own).unwrap();
+                f(&mut x);
+                x.get_tolerance()
+            });
+            match r {
+                Ok(t) if t == own => {}
+                Ok(t) => o.viol("polynomial::assigning operators", "assigning-form-keeps-the-polynomial's-own-tolerance", format!("{}: tolerance {:e} before, {:e} after", ctx(form), own, t)),
+                Err(m) => o.viol("polynomial::assigning operators", "no-panic", format!("{}: {}", ctx(form), m)),
+            }
+        };
+        keep("P += P", &|x| *x += pb(), &mut o);
+        keep("P += &P", &|x| *x += &pb(), &mut o);
+        keep("P -= P", &|x| *x -= pb(), &mut o);
+        keep("P -= &P", &|x| *x -= &pb(), &mut o);
+        keep("P *= P", &|x| *x *= pb(), &mut o);
+        keep("P *= &P", &|x| *x *= &pb(), &mut o);
+        let sn = N::from_c(s);
+        keep("P += s", &|x| *x += sn, &mut o);
+        keep("P -= s", &|x| *x -= sn, &mut o);
+        keep("P *= s", &|x| *x *= sn, &mut o);
+        keep("P /= s", &|x| *x /= sn, &mut o);
+        n_forms += n_assign;
+    }
     // operands that carry different zero tolerances, and a product whose leading coefficient lies between them: whatever
     // tolerance governs the product, the six ownership forms of the same product must agree with each other exactly
     // (differential oracle: no statement about which tolerance is the right one)
